@@ -1,11 +1,24 @@
 /-
 C12 — Patterns, destructuring, switch and runtime type annotations: property theorems.
+
+Layout
+  §1  types: `v is type(v)`, `v is anything`, `is_type` = the classification `HasType`
+  §2  no Rust panic is reachable in `assign` and its helpers
+  §3  `assign_all`'s pre-pass and drain arithmetic = the declarative arrangement (`arrange_eq_spec`)
+  §4  `assign` refines the transactional reference `specAssign` (for patterns whose `or` alternatives
+      bind nothing in their first branch; the general statement is refuted by the code, see §7)
+  §5  the relational matcher: `specAssign` in declaring contexts = `Matches` + `declareAll`
+  §6  `switch` runs the first arm that matches
+  §7  the recorded defect: `or` does not roll back
+  §8  operator patterns invert their constructors
+  §9  the annotation invariant over statement histories
 -/
 import NoulithModel.Spec.Match
+import NoulithModel.Spec.TypedStore
 
 namespace Noulith.C12
 
-/-! ## `v is type(v)` and `v is anything` -/
+/-! ## §1 types -/
 
 /-- `is_type_of` (first half): every value is of the type `type` reports for it. -/
 theorem isType_typeOf (v : Val) : isType (typeOf v) v = .ok true := by
@@ -14,5 +27,1563 @@ theorem isType_typeOf (v : Val) : isType (typeOf v) v = .ok true := by
 /-- `is_type_of` (second half): every value is `anything`. -/
 theorem isType_any (v : Val) : isType .any v = .ok true := by
   cases v <;> rfl
+
+theorem isType_eq_specIs (T : Ty) (v : Val) : isType T v = specIs v T := by
+  cases T <;> cases v <;> simp [isType, specIs, typeOf, isNum] <;> exact eq_comm
+
+theorem specIs_iff_HasType (T : Ty) (v : Val) : specIs v T = .ok true ↔ HasType v T := by
+  cases T <;> cases v <;> simp [specIs, HasType, typeOf] <;> exact eq_comm
+
+/-! ## §2 no panic (helpers) -/
+
+theorem predEval_no_panic (p : Nat) (v : Val) : predEval p v ≠ .panic := by
+  unfold predEval
+  split
+  · split
+    · split <;> (try split) <;> simp
+    · simp
+  · split <;> simp
+  · simp
+  · simp
+  · simp
+  · simp
+
+theorem isType_no_panic (T : Ty) (v : Val) : isType T v ≠ .panic := by
+  cases T <;> cases v <;> simp [isType, predEval_no_panic]
+
+theorem Out.map_ne_panic {α β} (f : α → β) (x : Out α) (h : x ≠ .panic) : x.map f ≠ .panic := by
+  cases x <;> simp_all [Out.map]
+
+theorem setIndex_no_panic (lhs : Val) (ixs : List Val) (value : Option Val) :
+    setIndex lhs ixs value ≠ .panic := by
+  induction ixs generalizing lhs with
+  | nil => simp [setIndex]
+  | cons i rest ih =>
+    unfold setIndex
+    split
+    · split
+      · split
+        · exact Out.map_ne_panic _ _ (ih _)
+        · simp
+      · simp
+    · split
+      · split
+        · exact Out.map_ne_panic _ _ (ih _)
+        · simp
+      · simp
+    · split
+      · simp
+      · split
+        · split <;> simp
+        · split
+          · split
+            · exact Out.map_ne_panic _ _ (ih _)
+            · simp
+          · simp
+    · simp
+
+theorem insert_no_panic (e : Env) (x : Nat) (T : Ty) (v : Val) : (e.insert x T v).2 ≠ .panic := by
+  unfold Env.insert
+  split
+  · simp
+  · split <;> simp
+
+theorem insertDeclare_no_panic (e : Env) (x : Nat) (T : Ty) (v : Val) :
+    (insertDeclare e x T v).2 ≠ .panic := by
+  unfold insertDeclare
+  split
+  · exact insert_no_panic _ _ _ _
+  · simp
+  · simp
+  · next h => exact absurd h (isType_no_panic _ _)
+
+theorem assignRespectingType_no_panic (e : Env) (x : Nat) (ixs : List Val) (v : Val) :
+    (assignRespectingType e x ixs v).2 ≠ .panic := by
+  unfold assignRespectingType
+  split
+  · simp
+  · split
+    · split
+      · simp
+      · simp
+      · simp
+      · next h => exact absurd h (isType_no_panic _ _)
+    · split
+      · split
+        · simp
+        · simp
+        · simp
+        · next h => exact absurd h (isType_no_panic _ _)
+      · simp
+      · next h => exact absurd h (setIndex_no_panic _ _ _)
+
+/-! ## §3 the arrangement -/
+
+def nSplat : List Pat → Nat
+  | [] => 0
+  | p :: ps => (if isSplatItem p then 1 else 0) + nSplat ps
+
+/-- defaults in play: `withDefault` items whose non-splat index (counted from `s`) is `≥ k` -/
+def inPlayP (k : Nat) : List Pat → Nat → List Val
+  | [], _ => []
+  | p :: ps, s =>
+    if isSplatItem p then inPlayP k ps s
+    else (match p with
+          | .withDefault _ d => if k ≤ s then [d] else []
+          | _ => []) ++ inPlayP k ps (s + 1)
+
+/-- a non-default, non-splat item follows a default in play -/
+def violP (k : Nat) : List Pat → Nat → Bool → Bool
+  | [], _, _ => false
+  | p :: ps, s, started =>
+    if isSplatItem p then violP k ps s started
+    else match p with
+      | .withDefault _ _ => violP k ps (s + 1) (started || decide (k ≤ s))
+      | _ => started || violP k ps (s + 1) started
+
+def firstSplat : List Pat → Nat → Option Nat
+  | [], _ => none
+  | p :: ps, i => if isSplatItem p then some i else firstSplat ps (i + 1)
+
+def prePassSpec (k : Nat) (ps : List Pat) (s : Nat) (i : Nat) (splat : Option Nat) (defs : List Val) : Out PrePass :=
+  if (splat.isSome && decide (nSplat ps ≥ 1)) || decide (nSplat ps ≥ 2) || violP k ps s (!defs.isEmpty) then .throw
+  else .ok { splat := match splat with | some x => some x | none => firstSplat ps i, defaults := defs ++ inPlayP k ps s }
+
+theorem prePass_splat (k : Nat) (p : Pat) (ps : List Pat) (i : Nat) (splat : Option Nat) (defs : List Val)
+    (h : isSplatItem p = true) :
+    prePass k (p :: ps) i splat defs =
+      (match splat with
+       | some _ => .throw
+       | none => prePass k ps (i + 1) (some i) defs) := by
+  cases p <;> simp [isSplatItem] at h
+  · rename_i q t
+    cases q <;> simp [isSplatItem] at h
+    simp only [prePass]
+    cases splat <;> rfl
+  · simp only [prePass]
+    cases splat <;> rfl
+
+theorem prePass_default (k : Nat) (q : Pat) (d : Val) (ps : List Pat) (s i : Nat) (splat : Option Nat)
+    (defs : List Val) (hi : i = s + (if splat.isSome then 1 else 0)) :
+    prePass k (.withDefault q d :: ps) i splat defs =
+      (if k ≤ s then prePass k ps (i + 1) splat (defs ++ [d]) else prePass k ps (i + 1) splat defs) := by
+  simp only [prePass]
+  cases splat <;> simp at hi <;> subst hi <;> simp <;> omega
+
+theorem prePass_other (k : Nat) (p : Pat) (ps : List Pat) (i : Nat) (splat : Option Nat) (defs : List Val)
+    (h1 : isSplatItem p = false) (h2 : defaultOf p = none) :
+    prePass k (p :: ps) i splat defs =
+      (if !defs.isEmpty then .throw else prePass k ps (i + 1) splat defs) := by
+  cases p <;> simp [isSplatItem, defaultOf] at h1 h2 <;> try (simp only [prePass])
+  rename_i q t
+  cases q <;> simp [isSplatItem] at h1 <;> simp only [prePass]
+
+theorem prePass_eq (k : Nat) (ps : List Pat) : ∀ (s i : Nat) (splat : Option Nat) (defs : List Val),
+    i = s + (if splat.isSome then 1 else 0) →
+    prePass k ps i splat defs = prePassSpec k ps s i splat defs := by
+  induction ps with
+  | nil =>
+    intro s i splat defs _
+    simp [prePass, prePassSpec, nSplat, violP, inPlayP, firstSplat]
+    cases splat <;> rfl
+  | cons p ps ih =>
+    intro s i splat defs hi
+    by_cases hsp : isSplatItem p = true
+    · rw [prePass_splat k p ps i splat defs hsp]
+      cases splat with
+      | some x => simp [prePassSpec, nSplat, hsp]
+      | none =>
+        simp at hi
+        subst hi
+        rw [ih i (i + 1) (some i) defs (by simp)]
+        simp only [prePassSpec, nSplat, violP, inPlayP, firstSplat, hsp, if_true]
+        have e1 : (decide (nSplat ps ≥ 1)) = decide (1 + nSplat ps ≥ 2) := by
+          apply decide_eq_decide.mpr; omega
+        by_cases h2 : nSplat ps ≥ 2
+        · have : nSplat ps ≥ 1 := by omega
+          simp [h2, this]
+          omega
+        · by_cases h1 : nSplat ps ≥ 1
+          · have : 1 + nSplat ps ≥ 2 := by omega
+            simp [h1, this]
+          · have : ¬ (1 + nSplat ps ≥ 2) := by omega
+            simp [h1, h2, this]
+    · have hsp' : isSplatItem p = false := by simpa using hsp
+      cases hd : defaultOf p with
+      | some d =>
+        obtain ⟨q, rfl⟩ : ∃ q, p = .withDefault q d := by
+          cases p <;> simp [defaultOf] at hd
+          subst hd
+          exact ⟨_, rfl⟩
+        rw [prePass_default k q d ps s i splat defs hi]
+        have hi' : i + 1 = (s + 1) + (if splat.isSome then 1 else 0) := by omega
+        by_cases hk : k ≤ s
+        · simp only [hk, if_true]
+          rw [ih (s + 1) (i + 1) splat (defs ++ [d]) hi']
+          have hne : (defs ++ [d]).isEmpty = false := by simp
+          simp [prePassSpec, nSplat, violP, inPlayP, firstSplat, isSplatItem, hk, hne]
+        · simp only [hk, if_false]
+          rw [ih (s + 1) (i + 1) splat defs hi']
+          simp [prePassSpec, nSplat, violP, inPlayP, firstSplat, isSplatItem, hk]
+      | none =>
+        rw [prePass_other k p ps i splat defs hsp' hd]
+        have hi' : i + 1 = (s + 1) + (if splat.isSome then 1 else 0) := by omega
+        have hv : violP k (p :: ps) s (!defs.isEmpty) = ((!defs.isEmpty) || violP k ps (s + 1) (!defs.isEmpty)) := by
+          simp only [violP, hsp']
+          cases p <;> simp [defaultOf] at hd <;> simp
+        have hin : inPlayP k (p :: ps) s = inPlayP k ps (s + 1) := by
+          simp only [inPlayP, hsp']
+          cases p <;> simp [defaultOf] at hd <;> simp
+        by_cases hde : defs.isEmpty = true
+        · simp only [hde, Bool.not_true]
+          rw [ih (s + 1) (i + 1) splat defs hi']
+          have hv' : violP k (p :: ps) s false = violP k ps (s + 1) false := by simpa [hde] using hv
+          simp [prePassSpec, hv', hin, nSplat, hsp', firstSplat, hde]
+        · simp only [prePassSpec, hv]
+          simp [hde]
+
+/-! bridging to the declarative description -/
+
+def NoSplatB (ps : List Pat) : Prop := ∀ p ∈ ps, isSplatItem p = false
+
+theorem inPlayP_length_le (k : Nat) (qs : List Pat) (s : Nat) : (inPlayP k qs s).length ≤ qs.length := by
+  induction qs generalizing s with
+  | nil => simp [inPlayP]
+  | cons q qs ih =>
+    unfold inPlayP
+    split
+    · have := ih s; simp; omega
+    · have := ih (s + 1)
+      cases q <;> simp <;> try omega
+      split <;> simp <;> omega
+
+/-- once a default is in play, everything that follows must be a default -/
+theorem started_lemma (k : Nat) (qs : List Pat) : ∀ s, k ≤ s → NoSplatB qs →
+    (match qs.mapM defaultOf with
+     | some ds => violP k qs s true = false ∧ inPlayP k qs s = ds
+     | none => violP k qs s true = true) := by
+  induction qs with
+  | nil => intro s _ _; simp [violP, inPlayP]
+  | cons q qs ih =>
+    intro s hk hns
+    have hq : isSplatItem q = false := hns q (by simp)
+    have hns' : NoSplatB qs := fun p hp => hns p (by simp [hp])
+    have ih' := ih (s + 1) (by omega) hns'
+    cases hd : defaultOf q with
+    | none =>
+      have : violP k (q :: qs) s true = true := by
+        simp only [violP, hq]
+        cases q <;> simp [defaultOf] at hd <;> simp
+      simp [List.mapM_cons, hd, this]
+    | some d =>
+      obtain ⟨q', rfl⟩ : ∃ q', q = .withDefault q' d := by
+        cases q <;> simp [defaultOf] at hd
+        subst hd; exact ⟨_, rfl⟩
+      simp only [List.mapM_cons, hd]
+      cases hm : qs.mapM defaultOf with
+      | none =>
+        simp only [hm] at ih'
+        simp [violP, isSplatItem, ih']
+      | some ds =>
+        simp only [hm] at ih'
+        simp [violP, inPlayP, isSplatItem, ih', hk]
+
+theorem fill_lemma (k : Nat) (qs : List Pat) : ∀ s, NoSplatB qs →
+    (match (qs.drop (k - s)).mapM defaultOf with
+     | some ds => violP k qs s false = false ∧ inPlayP k qs s = ds
+     | none => violP k qs s false = true ∨ (inPlayP k qs s).length + (k - s) < qs.length) := by
+  induction qs with
+  | nil => intro s _; simp [violP, inPlayP]
+  | cons q qs ih =>
+    intro s hns
+    have hq : isSplatItem q = false := hns q (by simp)
+    have hns' : NoSplatB qs := fun p hp => hns p (by simp [hp])
+    by_cases hk : k ≤ s
+    · have h0 : k - s = 0 := by omega
+      simp only [h0, List.drop_zero]
+      have st := started_lemma k qs (s + 1) (by omega) hns'
+      cases hd : defaultOf q with
+      | none =>
+        simp only [List.mapM_cons, hd]
+        right
+        have h1 : inPlayP k (q :: qs) s = inPlayP k qs (s + 1) := by
+          simp only [inPlayP, hq]
+          cases q <;> simp [defaultOf] at hd <;> simp
+        have := inPlayP_length_le k qs (s + 1)
+        simp [h1]; omega
+      | some d =>
+        obtain ⟨q', rfl⟩ : ∃ q', q = .withDefault q' d := by
+          cases q <;> simp [defaultOf] at hd
+          subst hd; exact ⟨_, rfl⟩
+        simp only [List.mapM_cons, hd]
+        cases hm : qs.mapM defaultOf with
+        | none =>
+          simp only [hm] at st
+          simp [violP, isSplatItem, st, hk]
+        | some ds =>
+          simp only [hm] at st
+          simp [violP, inPlayP, isSplatItem, st, hk]
+    · have h1 : k - s = (k - (s + 1)) + 1 := by omega
+      have ih' := ih (s + 1) hns'
+      rw [h1, List.drop_succ_cons]
+      have hv : violP k (q :: qs) s false = violP k qs (s + 1) false := by
+        simp only [violP, hq]
+        cases q <;> simp [hk]
+      have hin : inPlayP k (q :: qs) s = inPlayP k qs (s + 1) := by
+        simp only [inPlayP, hq]
+        cases q <;> simp [hk]
+      rw [hv, hin]
+      cases hm : (qs.drop (k - (s + 1))).mapM defaultOf with
+      | none =>
+        simp only [hm] at ih'
+        rcases ih' with h | h
+        · left; exact h
+        · right; simp; omega
+      | some ds =>
+        simp only [hm] at ih'
+        exact ih'
+
+theorem splatIdxs_length (ps : List Pat) : ∀ i, (splatIdxs ps i).length = nSplat ps := by
+  induction ps with
+  | nil => intro i; rfl
+  | cons p ps ih =>
+    intro i
+    unfold splatIdxs nSplat
+    by_cases h : isSplatItem p = true <;> simp [h, ih (i + 1)] <;> omega
+
+theorem splatIdxs_nil (ps : List Pat) : ∀ i, splatIdxs ps i = [] → NoSplatB ps ∧ firstSplat ps i = none := by
+  induction ps with
+  | nil => intro i _; exact ⟨fun p hp => (by cases hp), rfl⟩
+  | cons p ps ih =>
+    intro i h
+    unfold splatIdxs at h
+    by_cases hp : isSplatItem p = true
+    · simp [hp] at h
+    · simp [hp] at h
+      obtain ⟨h1, h2⟩ := ih (i + 1) h
+      refine ⟨?_, ?_⟩
+      · intro q hq
+        rcases List.mem_cons.mp hq with rfl | hq
+        · simpa using hp
+        · exact h1 q hq
+      · simp [firstSplat, hp, h2]
+
+theorem splatIdxs_single (k : Nat) (ps : List Pat) : ∀ i si, splatIdxs ps i = [si] →
+    ∃ j, si = i + j ∧ j < ps.length ∧ firstSplat ps i = some si ∧
+      NoSplatB (ps.take j ++ ps.drop (j + 1)) ∧
+      (∀ s, inPlayP k ps s = inPlayP k (ps.take j ++ ps.drop (j + 1)) s) ∧
+      (∀ s b, violP k ps s b = violP k (ps.take j ++ ps.drop (j + 1)) s b) := by
+  induction ps with
+  | nil => intro i si h; simp [splatIdxs] at h
+  | cons p ps ih =>
+    intro i si h
+    unfold splatIdxs at h
+    by_cases hp : isSplatItem p = true
+    · simp only [hp, if_true] at h
+      have h1 : i = si := by simpa using (List.cons.inj h).1
+      have h2 : splatIdxs ps (i + 1) = [] := (List.cons.inj h).2
+      obtain ⟨hns, _⟩ := splatIdxs_nil ps (i + 1) h2
+      refine ⟨0, by omega, by simp, by simp [firstSplat, hp, h1], ?_, ?_, ?_⟩
+      · simpa using hns
+      · intro s; simp [inPlayP, hp]
+      · intro s b; simp [violP, hp]
+    · simp only [hp] at h
+      have hp' : isSplatItem p = false := by simpa using hp
+      obtain ⟨j, hj1, hj2, hj3, hj4, hj5, hj6⟩ := ih (i + 1) si h
+      refine ⟨j + 1, by omega, by simp; omega, by simp [firstSplat, hp, hj3], ?_, ?_, ?_⟩
+      · intro q hq
+        simp only [List.take_succ_cons, List.drop_succ_cons, List.cons_append] at hq
+        rcases List.mem_cons.mp hq with rfl | hq
+        · exact hp'
+        · exact hj4 q hq
+      · intro s
+        simp only [List.take_succ_cons, List.drop_succ_cons, List.cons_append, inPlayP, hp', hj5]
+      · intro s b
+        simp only [List.take_succ_cons, List.drop_succ_cons, List.cons_append, violP, hp', hj6]
+
+def optToOut {α} : Option α → Out α
+  | some a => .ok a
+  | none => .throw
+
+theorem prePass_init (k : Nat) (ps : List Pat) :
+    prePass k ps 0 none [] =
+      if nSplat ps ≥ 2 ∨ violP k ps 0 false = true then .throw
+      else .ok { splat := firstSplat ps 0, defaults := inPlayP k ps 0 } := by
+  rw [prePass_eq k ps 0 0 none [] (by simp)]
+  simp [prePassSpec]
+
+theorem arrange_throw (lhs : List Pat) (k : Nat) (rhs : List Val)
+    (h : prePass k lhs 0 none [] = .throw) : arrange lhs k rhs = .throw := by
+  unfold arrange; rw [h]
+
+theorem arrange_noSplat (lhs : List Pat) (k : Nat) (rhs ds : List Val)
+    (h : prePass k lhs 0 none [] = .ok { splat := none, defaults := ds }) :
+    arrange lhs k rhs =
+      if lhs.length = k + ds.length ∧ lhs.length = (rhs ++ ds).length then .ok (rhs ++ ds) else .throw := by
+  unfold arrange; rw [h]
+  simp only []
+  by_cases h1 : lhs.length = k + ds.length
+  · by_cases h2 : lhs.length = (rhs ++ ds).length
+    · simp [h1, h2]
+    · simp [h1, h2]
+  · simp [h1]
+
+theorem arrange_splat (lhs : List Pat) (k : Nat) (rhs ds : List Val) (si : Nat)
+    (h : prePass k lhs 0 none [] = .ok { splat := some si, defaults := ds })
+    (hsi : si < lhs.length) :
+    arrange lhs k rhs =
+      let F := rhs ++ ds
+      if F.length + 1 < lhs.length then .throw
+      else
+        let nPost := lhs.length - (si + 1)
+        .ok (F.take si ++ Val.list ((F.drop si).take (F.length - si - nPost)) :: F.drop (F.length - nPost)) := by
+  unfold arrange; rw [h]
+  simp only []
+  generalize rhs ++ ds = F
+  by_cases h1 : F.length + 1 < lhs.length
+  · simp only [h1, if_true]
+  · simp only [h1, if_false]
+    have hF : lhs.length ≤ F.length + 1 := by omega
+    have e1 : ((F.length : Int) + (si : Int) + 1 - (lhs.length : Int)) = ((F.length + si + 1 - lhs.length : Nat) : Int) := by omega
+    rw [e1]
+    simp only [Int.toNat_natCast]
+    have c1 : ¬ (((F.length + si + 1 - lhs.length : Nat) : Int) < 0 ∨ ((F.length + si + 1 - lhs.length : Nat) : Int) > (F.length : Int)) := by omega
+    simp only [c1, if_false]
+    have c2 : ¬ (si > (List.take (F.length + si + 1 - lhs.length) F).length) := by
+      simp; omega
+    simp only [c2, if_false]
+    have c3 : ¬ ((List.take si (List.take (F.length + si + 1 - lhs.length) F)).length != si) = true := by
+      simp; omega
+    simp only [c3]
+    have c4 : ¬ ((List.drop (F.length + si + 1 - lhs.length) F).length != lhs.length - (si + 1)) = true := by
+      simp; omega
+    simp only [c4]
+    simp only [Bool.false_eq_true, if_false]
+    have t1 : List.take si (List.take (F.length + si + 1 - lhs.length) F) = List.take si F := by
+      rw [List.take_take]; congr 1; omega
+    have t2 : List.drop si (List.take (F.length + si + 1 - lhs.length) F)
+        = List.take (F.length - si - (lhs.length - (si + 1))) (List.drop si F) := by
+      rw [List.drop_take]; congr 1; omega
+    have t3 : F.length + si + 1 - lhs.length = F.length - (lhs.length - (si + 1)) := by omega
+    rw [t1, t2, t3]
+    simp
+
+theorem arrange_eq_spec (ps : List Pat) (items : List Val) :
+    arrange ps items.length items = optToOut (specArrange ps items) := by
+  have hlen := splatIdxs_length ps 0
+  have hpp := prePass_init items.length ps
+  unfold specArrange
+  cases hs : splatIdxs ps 0 with
+  | nil =>
+    rw [hs] at hlen
+    obtain ⟨hns, hfs⟩ := splatIdxs_nil ps 0 hs
+    have fl := fill_lemma items.length ps 0 hns
+    simp only [Nat.sub_zero] at fl
+    have hn0 : nSplat ps = 0 := by simpa using hlen.symm
+    have hn2 : ¬ nSplat ps ≥ 2 := by omega
+    cases hm : (ps.drop items.length).mapM defaultOf with
+    | some ds =>
+      simp only [hm] at fl
+      have hpp' : prePass items.length ps 0 none [] = .ok { splat := none, defaults := ds } := by
+        rw [hpp]; simp [hn2, fl.1, fl.2, hfs]
+      rw [arrange_noSplat ps items.length items ds hpp']
+      by_cases hl : (items ++ ds).length = ps.length
+      · have h1 : ps.length = items.length + ds.length := by simp at hl; omega
+        simp [hl, h1, optToOut]
+      · have h1 : ¬ ps.length = (items ++ ds).length := fun h => hl h.symm
+        have h2 : ¬ ps.length = items.length + ds.length := by simpa using h1
+        simp only [hl, if_false, optToOut]
+        simp [h2]
+    | none =>
+      simp only [hm] at fl
+      simp only [optToOut]
+      by_cases hv : violP items.length ps 0 false = true
+      · exact arrange_throw _ _ _ (by rw [hpp]; simp [hv])
+      · have hlt : (inPlayP items.length ps 0).length + items.length < ps.length := by
+          rcases fl with h | h
+          · exact absurd h hv
+          · exact h
+        have hpp' : prePass items.length ps 0 none [] =
+            .ok { splat := none, defaults := inPlayP items.length ps 0 } := by
+          rw [hpp]; simp [hn2, hv, hfs]
+        rw [arrange_noSplat ps items.length items _ hpp']
+        have : ¬ ps.length = items.length + (inPlayP items.length ps 0).length := by omega
+        simp [this]
+  | cons si rest =>
+    cases rest with
+    | nil =>
+      rw [hs] at hlen
+      have hn1 : nSplat ps = 1 := by simpa using hlen.symm
+      have hn2 : ¬ nSplat ps ≥ 2 := by omega
+      obtain ⟨j, hj1, hj2, hj3, hj4, hj5, hj6⟩ := splatIdxs_single items.length ps 0 si hs
+      have hj : j = si := by omega
+      subst hj
+      have fl := fill_lemma items.length (ps.take j ++ ps.drop (j + 1)) 0 hj4
+      simp only [Nat.sub_zero] at fl
+      have hql : (ps.take j ++ ps.drop (j + 1)).length = ps.length - 1 := by
+        simp; omega
+      cases hm : ((ps.take j ++ ps.drop (j + 1)).drop items.length).mapM defaultOf with
+      | some ds =>
+        simp only [hm] at fl
+        have hpp' : prePass items.length ps 0 none [] = .ok { splat := some j, defaults := ds } := by
+          rw [hpp]; simp [hn2, hj6, hj5, fl.1, fl.2, hj3]
+        rw [arrange_splat ps items.length items ds j hpp' hj2]
+        simp only [hql, hm]
+        by_cases hl : (items ++ ds).length + 1 < ps.length
+        · have : (items ++ ds).length < ps.length - 1 := by omega
+          simp only [hl, this, if_true, optToOut]
+        · have : ¬ (items ++ ds).length < ps.length - 1 := by omega
+          simp only [hl, this, if_false, optToOut]
+      | none =>
+        simp only [hm] at fl
+        simp only [hm, optToOut]
+        by_cases hv : violP items.length ps 0 false = true
+        · exact arrange_throw _ _ _ (by rw [hpp]; simp [hv])
+        · have hlt : (inPlayP items.length ps 0).length + items.length < ps.length - 1 := by
+            rcases fl with h | h
+            · rw [← hj6] at h; exact absurd h hv
+            · rw [← hj5, hql] at h; exact h
+          have hpp' : prePass items.length ps 0 none [] =
+              .ok { splat := some j, defaults := inPlayP items.length ps 0 } := by
+            rw [hpp]; simp [hn2, hv, hj3]
+          rw [arrange_splat ps items.length items _ j hpp' hj2]
+          have : (items ++ inPlayP items.length ps 0).length + 1 < ps.length := by simp; omega
+          simp only [this, if_true]
+    | cons sj rest' =>
+      rw [hs] at hlen
+      have : nSplat ps ≥ 2 := by simp at hlen; omega
+      simp only [optToOut]
+      exact arrange_throw _ _ _ (by rw [hpp]; simp [this])
+
+/-! ## §4 `assign` refines `specAssign` -/
+
+mutual
+def noIdents : Pat → Bool
+  | .underscore => true
+  | .ident _ _ => false
+  | .anno p _ => noIdents p
+  | .withDefault p _ => noIdents p
+  | .seq ps _ => noIdentsL ps
+  | .splat p => noIdents p
+  | .or a b => noIdents a && noIdents b
+  | .and a b => noIdents a && noIdents b
+  | .lit _ => true
+  | .destr _ ps => noIdentsL ps
+  | .destrStruct _ ps => noIdentsL ps
+def noIdentsL : List Pat → Bool
+  | [] => true
+  | p :: ps => noIdents p && noIdentsL ps
+end
+
+mutual
+/-- the first alternative of every `or` binds nothing (so that a failing alternative cannot leave
+anything behind) -/
+def orClean : Pat → Bool
+  | .underscore => true
+  | .ident _ _ => true
+  | .anno p _ => orClean p
+  | .withDefault p _ => orClean p
+  | .seq ps _ => orCleanL ps
+  | .splat p => orClean p
+  | .or a b => noIdents a && orClean a && orClean b
+  | .and a b => orClean a && orClean b
+  | .lit _ => true
+  | .destr _ ps => orCleanL ps
+  | .destrStruct _ ps => orCleanL ps
+def orCleanL : List Pat → Bool
+  | [] => true
+  | p :: ps => orClean p && orCleanL ps
+end
+
+def stepItems (r : Env × Out Unit) (k : Env → Env × Out Unit) : Env × Out Unit :=
+  match r with
+  | (e', .ok ()) => k e'
+  | r => r
+
+theorem assignItems_nil (e : Env) (rt : Option Ty) (vs : List Val) : assignItems e [] rt vs = (e, .ok ()) := by
+  cases vs <;> rfl
+
+theorem assignItems_cons_nil (e : Env) (p : Pat) (ps : List Pat) (rt : Option Ty) :
+    assignItems e (p :: ps) rt [] = (e, .throw) := rfl
+
+theorem assignItems_splat (e : Env) (inner : Pat) (ps : List Pat) (rt : Option Ty) (v : Val) (vs : List Val) :
+    assignItems e (.splat inner :: ps) rt (v :: vs) =
+      stepItems (assign e inner rt v) (fun e' => assignItems e' ps rt vs) := rfl
+
+theorem assignItems_annoSplat (e : Env) (inner : Pat) (ann : Option Val) (ps : List Pat) (rt : Option Ty) (v : Val) (vs : List Val) :
+    assignItems e (.anno (.splat inner) ann :: ps) rt (v :: vs) =
+      stepItems (match ann with
+         | none => assign e inner (some .any) v
+         | some t =>
+           match toType t with
+           | .ok ty => assign e inner (some ty) v
+           | .throw => (e, .throw)
+           | .panic => (e, .panic)) (fun e' => assignItems e' ps rt vs) := rfl
+
+theorem assignItems_other (e : Env) (p : Pat) (ps : List Pat) (rt : Option Ty) (v : Val) (vs : List Val)
+    (h : isSplatItem p = false) :
+    assignItems e (p :: ps) rt (v :: vs) =
+      stepItems (assign e p rt v) (fun e' => assignItems e' ps rt vs) := by
+  cases p with
+  | anno q t => cases q <;> first | rfl | simp [isSplatItem] at h
+  | splat q => simp [isSplatItem] at h
+  | _ => rfl
+
+
+mutual
+theorem assign_noIdents_env (e : Env) : ∀ (p : Pat) (rt : Option Ty) (v : Val),
+    noIdents p = true → (assign e p rt v).1 = e
+  | .underscore, rt, v, _ => by
+      unfold assign; cases rt <;> simp
+      split <;> rfl
+  | .ident _ _, _, _, h => by simp [noIdents] at h
+  | .anno s ann, rt, v, h => by
+      unfold assign
+      cases ann with
+      | none => exact assign_noIdents_env e s _ v (by simpa [noIdents] using h)
+      | some t =>
+        simp only []
+        split
+        · exact assign_noIdents_env e s _ v (by simpa [noIdents] using h)
+        · rfl
+        · rfl
+  | .withDefault s _, rt, v, h => by
+      unfold assign; exact assign_noIdents_env e s rt v (by simpa [noIdents] using h)
+  | .seq ss d, rt, v, h => by
+      unfold assign
+      simp only []
+      split
+      · rfl
+      · rfl
+      · split
+        · split
+          · exact assignItems_noIdents_env e ss _ _ (by simpa [noIdents] using h)
+          · rfl
+          · rfl
+        · rfl
+  | .splat _, _, _, _ => by unfold assign; rfl
+  | .or a b, rt, v, h => by
+      unfold assign
+      simp [noIdents] at h
+      have ha := assign_noIdents_env e a rt v h.1
+      split
+      · next e' heq => rw [heq] at ha; exact ha
+      · next e' heq => rw [heq] at ha; exact ha
+      · next e' heq =>
+        rw [heq] at ha; simp at ha; rw [ha]
+        exact assign_noIdents_env e b rt v h.2
+  | .and a b, rt, v, h => by
+      unfold assign
+      simp [noIdents] at h
+      have ha := assign_noIdents_env e a rt v h.1
+      split
+      · next e' heq =>
+        rw [heq] at ha; simp at ha; rw [ha]
+        exact assign_noIdents_env e b rt v h.2
+      · exact ha
+  | .lit l, _, v, _ => by unfold assign; split <;> rfl
+  | .destr f args, rt, v, h => by
+      unfold assign
+      split
+      · split
+        · split
+          · exact assignItems_noIdents_env e args _ _ (by simpa [noIdents] using h)
+          · rfl
+          · rfl
+        · rfl
+      · rfl
+      · rfl
+  | .destrStruct sid args, rt, v, h => by
+      unfold assign
+      split
+      · split
+        · split
+          · exact assignItems_noIdents_env e args _ _ (by simpa [noIdents] using h)
+          · rfl
+          · rfl
+        · rfl
+      · rfl
+theorem assignItems_noIdents_env (e : Env) : ∀ (ps : List Pat) (rt : Option Ty) (vs : List Val),
+    noIdentsL ps = true → (assignItems e ps rt vs).1 = e
+  | [], _, _, _ => by rw [assignItems_nil]
+  | _ :: _, _, [], _ => by rw [assignItems_cons_nil]
+  | p :: ps, rt, v :: vs, h => by
+      simp [noIdentsL] at h
+      have key : ∀ (r : Env × Out Unit), r.1 = e →
+          (stepItems r (fun e' => assignItems e' ps rt vs)).1 = e := by
+        intro r hr
+        obtain ⟨e', o⟩ := r
+        simp at hr
+        rw [hr]
+        cases o with
+        | ok u => exact assignItems_noIdents_env e ps rt vs h.2
+        | throw => rfl
+        | panic => rfl
+      cases p with
+      | splat inner =>
+        rw [assignItems_splat]
+        exact key _ (assign_noIdents_env e inner rt v (by simpa [noIdents] using h.1))
+      | anno q ann =>
+        cases q with
+        | splat inner =>
+          rw [assignItems_annoSplat]
+          apply key
+          have hi : noIdents inner = true := by simpa [noIdents] using h.1
+          cases ann with
+          | none => exact assign_noIdents_env e inner _ v hi
+          | some t =>
+            simp only []
+            split
+            · exact assign_noIdents_env e inner _ v hi
+            · rfl
+            · rfl
+        | _ =>
+          rw [assignItems_other _ _ _ _ _ _ (by simp [isSplatItem])]
+          exact key _ (assign_noIdents_env e _ rt v h.1)
+      | _ =>
+        rw [assignItems_other _ _ _ _ _ _ (by simp [isSplatItem])]
+        exact key _ (assign_noIdents_env e _ rt v h.1)
+end
+
+theorem seq_view_cases (v : Val) :
+    (∃ items, patLen v = some items.length ∧ seqItems v = some items) ∨ (patLen v = none ∧ seqItems v = none) := by
+  cases v <;> simp [patLen, seqLen, seqItems]
+
+theorem specAssignItems_nil (e : Env) (rt : Option Ty) : specAssignItems e [] rt [] = some e := rfl
+theorem specAssignItems_nil_cons (e : Env) (rt : Option Ty) (v : Val) (vs : List Val) :
+    specAssignItems e [] rt (v :: vs) = none := rfl
+theorem specAssignItems_cons_nil (e : Env) (p : Pat) (ps : List Pat) (rt : Option Ty) :
+    specAssignItems e (p :: ps) rt [] = none := rfl
+
+theorem specAssignItems_splat (e : Env) (inner : Pat) (ps : List Pat) (rt : Option Ty) (v : Val) (vs : List Val) :
+    specAssignItems e (.splat inner :: ps) rt (v :: vs) =
+      (specAssign e inner rt v).bind (fun e' => specAssignItems e' ps rt vs) := by
+  show (match specAssign e inner rt v with | some e' => specAssignItems e' ps rt vs | none => none) = _
+  cases specAssign e inner rt v <;> rfl
+
+theorem specAssignItems_annoSplat (e : Env) (inner : Pat) (ann : Option Val) (ps : List Pat) (rt : Option Ty) (v : Val) (vs : List Val) :
+    specAssignItems e (.anno (.splat inner) ann :: ps) rt (v :: vs) =
+      (match ann with
+         | none => specAssign e inner (some .any) v
+         | some t =>
+           match toType t with
+           | .ok ty => specAssign e inner (some ty) v
+           | _ => none).bind (fun e' => specAssignItems e' ps rt vs) := by
+  cases ann with
+  | none =>
+    show (match specAssign e inner (some .any) v with | some e' => specAssignItems e' ps rt vs | none => none) = _
+    cases specAssign e inner (some .any) v <;> rfl
+  | some t =>
+    have h1 : specAssignItems e (.anno (.splat inner) (some t) :: ps) rt (v :: vs) =
+        (match (match toType t with | .ok T' => specAssign e inner (some T') v | _ => none) with
+          | some e' => specAssignItems e' ps rt vs | none => none) := rfl
+    rw [h1]
+    simp only []
+    generalize toType t = tt
+    cases tt with
+    | ok ty => simp only []; cases specAssign e inner (some ty) v <;> rfl
+    | throw => rfl
+    | panic => rfl
+
+theorem specAssignItems_other (e : Env) (p : Pat) (ps : List Pat) (rt : Option Ty) (v : Val) (vs : List Val)
+    (h : isSplatItem p = false) :
+    specAssignItems e (p :: ps) rt (v :: vs) =
+      (specAssign e p rt v).bind (fun e' => specAssignItems e' ps rt vs) := by
+  have key : ∀ q, (match specAssign e q rt v with | some e' => specAssignItems e' ps rt vs | none => none)
+      = (specAssign e q rt v).bind (fun e' => specAssignItems e' ps rt vs) := by
+    intro q; cases specAssign e q rt v <;> rfl
+  cases p with
+  | anno q t => cases q <;> first | exact key _ | simp [isSplatItem] at h
+  | splat q => simp [isSplatItem] at h
+  | _ => exact key _
+
+theorem arith_no_panic (op : Rat → Rat → Rat) (a b : Val) : arith op a b ≠ .panic := by
+  unfold arith; split <;> simp
+
+theorem negVal_no_panic (v : Val) : negVal v ≠ .panic := by
+  cases v <;> simp [negVal]
+
+theorem remNum_no_panic (r a : Val) (h : isNonzero a = true) : remNum r a ≠ .panic := by
+  unfold remNum
+  split
+  · next x y hx hy =>
+    simp [isNonzero, hy] at h
+    simp [h]
+  · simp
+
+theorem divFloorNum_no_panic (r a : Val) (h : isNonzero a = true) : divFloorNum r a ≠ .panic := by
+  unfold divFloorNum
+  split
+  · next x y hx hy =>
+    simp [isNonzero, hy] at h
+    simp [h]
+  · simp
+
+theorem uncons_no_panic (v : Val) : uncons v ≠ .panic := by
+  unfold uncons; split <;> simp
+
+theorem unsnoc_no_panic (v : Val) : unsnoc v ≠ .panic := by
+  unfold unsnoc; split <;> (try split) <;> simp
+
+theorem ncmp_no_panic (a b : Val) : ncmp a b ≠ .panic := by
+  unfold ncmp
+  split
+  · split
+    · split <;> simp
+    · simp
+    · simp
+  · split <;> simp
+
+theorem accept_no_panic (op : CmpOp) (a b : Val) : op.accept a b ≠ .panic := by
+  cases op <;> simp [CmpOp.accept] <;> exact Out.map_ne_panic _ _ (ncmp_no_panic a b)
+
+theorem cmpChain_no_panic (ops : List CmpOp) : ∀ vs : List Val, cmpChain ops vs ≠ .panic := by
+  induction ops with
+  | nil => intro vs; simp [cmpChain]
+  | cons op ops ih =>
+    intro vs
+    match vs with
+    | [] => simp [cmpChain]
+    | [_] => simp [cmpChain]
+    | a :: b :: rest =>
+      simp only [cmpChain]
+      split
+      · exact ih _
+      · next r hr => 
+        intro hp
+        exact accept_no_panic op a b hp
+
+theorem destructure_no_panic (f : Bi) (v : Val) (known : List (Option Val)) :
+    destructure f v known ≠ .panic := by
+  cases f with
+  | plus =>
+    simp only [destructure]
+    have key : ∀ (a : Val) (mk : Val → List Val),
+        (match arith (· - ·) v a with
+          | .ok diff => (match exactNum diff with
+              | some d => if d ≥ 0 then Out.ok (mk diff) else .throw
+              | none => .throw)
+          | r => r.map fun _ => []) ≠ Out.panic := by
+      intro a mk
+      cases ha : arith (· - ·) v a with
+      | ok diff => simp only []; split <;> (try split) <;> simp
+      | throw => simp [Out.map]
+      | panic => exact absurd ha (arith_no_panic _ _ _)
+    split
+    · split
+      · exact key _ _
+      · simp
+    · split
+      · exact key _ _
+      · simp
+    · simp
+  | minus =>
+    simp only [destructure]
+    split
+    · exact Out.map_ne_panic _ _ (negVal_no_panic v)
+    · simp
+  | times =>
+    simp only [destructure]
+    have key : ∀ (a : Val) (mk : Val → List Val), isNonzero a = true →
+        (match remNum v a with
+          | .ok r => if isNonzero r then Out.throw else (divFloorNum v a).map mk
+          | r => r.map fun _ => []) ≠ Out.panic := by
+      intro a mk hnz
+      cases ha : remNum v a with
+      | ok r =>
+        simp only []
+        split
+        · simp
+        · exact Out.map_ne_panic _ _ (divFloorNum_no_panic _ _ hnz)
+      | throw => simp [Out.map]
+      | panic => exact absurd ha (remNum_no_panic _ _ hnz)
+    split
+    · split
+      · split
+        · simp
+        · next hnz => exact key _ _ (by simpa using hnz)
+      · simp
+    · split
+      · split
+        · simp
+        · next hnz => exact key _ _ (by simpa using hnz)
+      · simp
+    · simp
+  | divide => simp only [destructure]; split <;> simp
+  | append =>
+    simp only [destructure]
+    split <;> simp
+    next h => exact unsnoc_no_panic v h
+  | prepend =>
+    simp only [destructure]
+    split <;> simp
+    next h => exact uncons_no_panic v h
+  | cmp ops =>
+    simp only [destructure]
+    split
+    · simp
+    · split
+      · simp
+      · split
+        · simp
+        · split
+          · simp
+          · split <;> simp
+            next h => exact cmpChain_no_panic _ _ h
+  | other t => simp [destructure]
+
+/-- what it means for the interpreter's `assign` to implement the reference: same success, same
+resulting environment; raising exactly when the reference has no result; never a panic -/
+def Ref (r : Env × Out Unit) (s : Option Env) : Prop :=
+  match r.2 with
+  | .ok _ => s = some r.1
+  | .throw => s = none
+  | .panic => False
+
+theorem specArrange_length (ps : List Pat) (items arr : List Val)
+    (h : specArrange ps items = some arr) : arr.length = ps.length := by
+  unfold specArrange at h
+  cases hs : splatIdxs ps 0 with
+  | nil =>
+    simp only [hs] at h
+    split at h
+    · split at h
+      · next hl => simp at h; subst h; exact hl
+      · simp at h
+    · simp at h
+  | cons si rest =>
+    cases rest with
+    | nil =>
+      simp only [hs] at h
+      obtain ⟨j, hj1, hj2, _⟩ := splatIdxs_single 0 ps 0 si hs
+      have hj : j = si := by omega
+      subst hj
+      split at h
+      · next ds hm =>
+        split at h
+        · simp at h
+        · next hlt =>
+          simp at h
+          subst h
+          simp at hlt ⊢
+          omega
+      · simp at h
+    | cons sj r => simp [hs] at h
+
+theorem arrange_length (ps : List Pat) (items arr : List Val)
+    (h : arrange ps items.length items = .ok arr) : arr.length = ps.length := by
+  rw [arrange_eq_spec] at h
+  cases hs : specArrange ps items with
+  | none => simp [hs, optToOut] at h
+  | some a =>
+    simp [hs, optToOut] at h
+    subst h
+    exact specArrange_length ps items a hs
+
+theorem arrange_cases (ps : List Pat) (items : List Val) :
+    (∃ arr, arrange ps items.length items = .ok arr ∧ specArrange ps items = some arr ∧ arr.length = ps.length)
+    ∨ (arrange ps items.length items = .throw ∧ specArrange ps items = none) := by
+  rw [arrange_eq_spec]
+  cases hs : specArrange ps items with
+  | none => right; simp [optToOut]
+  | some a => left; exact ⟨a, by simp [optToOut], rfl, specArrange_length ps items a hs⟩
+
+theorem ref_insertDeclare (e : Env) (x : Nat) (T : Ty) (v : Val) :
+    Ref (insertDeclare e x T v)
+      (if isType T v = .ok true then outToOption (match e.insert x T v with | (e', r) => r.map fun _ => e') else none) := by
+  unfold insertDeclare Ref
+  cases hty : isType T v with
+  | ok b =>
+    cases b with
+    | true =>
+      simp only [if_true]
+      unfold Env.insert
+      cases e with
+      | nil => simp [outToOption, Out.map]
+      | cons f rest =>
+        simp only []
+        by_cases hf : f.has x = true <;> simp [hf, outToOption, Out.map]
+    | false => simp
+  | throw => simp
+  | panic => exact absurd hty (isType_no_panic _ _)
+
+theorem ref_step (r : Env × Out Unit) (s : Option Env) (k : Env → Env × Out Unit) (ks : Env → Option Env)
+    (h : Ref r s) (hk : ∀ e', Ref (k e') (ks e')) : Ref (stepItems r k) (s.bind ks) := by
+  obtain ⟨e', o⟩ := r
+  cases o with
+  | ok u =>
+    simp [Ref] at h
+    subst h
+    simp [stepItems]
+    exact hk e'
+  | throw =>
+    simp [Ref] at h
+    subst h
+    simp [stepItems, Ref]
+  | panic => simp [Ref] at h
+
+theorem tail_ref (e : Env) (ss : List Pat) (rt' : Option Ty) (items : List Val)
+    (ih : ∀ arr : List Val, ss.length = arr.length → Ref (assignItems e ss rt' arr) (specAssignItems e ss rt' arr)) :
+    Ref (match arrange ss items.length items with
+          | .ok arranged => assignItems e ss rt' arranged
+          | .throw => (e, .throw)
+          | .panic => (e, .panic))
+        (match specArrange ss items with
+          | some arr => specAssignItems e ss rt' arr
+          | none => none) := by
+  rcases arrange_cases ss items with ⟨arr, h1, h2, h3⟩ | ⟨h1, h2⟩
+  · rw [h1, h2]; exact ih arr h3.symm
+  · rw [h1, h2]; simp [Ref]
+
+mutual
+theorem assign_ref (e : Env) : ∀ (p : Pat) (rt : Option Ty) (v : Val), orClean p = true →
+    Ref (assign e p rt v) (specAssign e p rt v)
+  | .underscore, rt, v, _ => by
+      unfold assign specAssign
+      cases rt with
+      | none => simp [Ref]
+      | some T =>
+        simp only []
+        cases hty : isType T v with
+        | ok b => cases b <;> simp [Ref]
+        | throw => simp [Ref]
+        | panic => exact absurd hty (isType_no_panic _ _)
+  | .ident x ixs, rt, v, _ => by
+      unfold assign specAssign
+      cases rt with
+      | some T =>
+        cases ixs with
+        | nil =>
+          simp only [List.isEmpty_nil, true_and]
+          exact ref_insertDeclare e x T v
+        | cons i is => simp [Ref]
+      | none =>
+        simp only []
+        have hnp := assignRespectingType_no_panic e x ixs v
+        rcases hr : assignRespectingType e x ixs v with ⟨e', o⟩
+        cases o with
+        | ok u => simp [Ref]
+        | throw => simp [Ref]
+        | panic => simp [hr] at hnp
+  | .anno s ann, rt, v, h => by
+      unfold assign
+      cases ann with
+      | none =>
+        simp only [specAssign]
+        exact assign_ref e s _ v (by simpa [orClean] using h)
+      | some t =>
+        simp only [specAssign]
+        cases ht : toType t with
+        | ok ty => exact assign_ref e s _ v (by simpa [orClean] using h)
+        | throw => simp [Ref]
+        | panic => cases t <;> simp [toType] at ht
+  | .withDefault s _, rt, v, h => by
+      unfold assign specAssign
+      exact assign_ref e s rt v (by simpa [orClean] using h)
+  | .seq ss d, rt, v, h => by
+      have hss : orCleanL ss = true := by simpa [orClean] using h
+      unfold assign specAssign
+      cases d with
+      | false =>
+        simp only [Bool.false_eq_true, if_false]
+        rcases seq_view_cases v with ⟨items, h1, h2⟩ | ⟨h1, h2⟩
+        · simp only [h1, h2, seqView]
+          exact tail_ref e ss (rt) items (fun arr hl => assignItems_ref e ss (rt) arr hss hl)
+        · simp [h1, h2, seqView, Ref]
+      | true =>
+        cases rt with
+        | none =>
+          simp only [if_true, Option.map_none]
+          rcases seq_view_cases v with ⟨items, h1, h2⟩ | ⟨h1, h2⟩
+          · simp only [h1, h2, seqView]
+            exact tail_ref e ss (none) items (fun arr hl => assignItems_ref e ss (none) arr hss hl)
+          · simp [h1, h2, seqView, Ref]
+        | some T =>
+          cases hty : isType T v with
+          | ok b =>
+            cases b with
+            | true =>
+              simp only [hty, if_true, Option.map_some, decide_true]
+              rcases seq_view_cases v with ⟨items, h1, h2⟩ | ⟨h1, h2⟩
+              · simp only [h1, h2, seqView]
+                exact tail_ref e ss (some Ty.any) items (fun arr hl => assignItems_ref e ss (some Ty.any) arr hss hl)
+              · simp [h1, h2, seqView, Ref]
+            | false => simp only [hty]; simp [Ref]
+          | throw => simp only [hty]; simp [Ref]
+          | panic => exact absurd hty (isType_no_panic _ _)
+  | .splat _, _, _, _ => by unfold assign specAssign; simp [Ref]
+  | .or a b, rt, v, h => by
+      unfold assign specAssign
+      simp [orClean] at h
+      have ha := assign_ref e a rt v h.1.2
+      have hfr := assign_noIdents_env e a rt v h.1.1
+      rcases hr : assign e a rt v with ⟨e', o⟩
+      rw [hr] at ha hfr
+      simp at hfr
+      subst hfr
+      cases o with
+      | ok u =>
+        simp [Ref] at ha
+        simp [Ref, ha]
+      | throw =>
+        simp [Ref] at ha
+        simp only [ha]
+        exact assign_ref e' b rt v h.2
+      | panic => simp [Ref] at ha
+  | .and a b, rt, v, h => by
+      unfold assign specAssign
+      simp [orClean] at h
+      have ha := assign_ref e a rt v h.1
+      rcases hr : assign e a rt v with ⟨e', o⟩
+      rw [hr] at ha
+      cases o with
+      | ok u =>
+        simp [Ref] at ha
+        simp only [ha]
+        exact assign_ref e' b rt v h.2
+      | throw =>
+        simp [Ref] at ha
+        simp [Ref, ha]
+      | panic => simp [Ref] at ha
+  | .lit l, _, v, _ => by
+      unfold assign specAssign
+      by_cases hv : veq l v = true <;> simp [hv, Ref]
+  | .destr f args, rt, v, h => by
+      have hss : orCleanL args = true := by simpa [orClean] using h
+      unfold assign specAssign
+      cases hd : destructure f v (args.map knownOf) with
+      | ok res =>
+        simp only []
+        by_cases hl : res.length = args.length
+        · simp only [hl, beq_self_eq_true, if_true]
+          rw [← hl]
+          exact tail_ref e args rt res (fun arr hl' => assignItems_ref e args rt arr hss hl')
+        · simp [hl, Ref]
+      | throw => simp [Ref]
+      | panic => exact absurd hd (destructure_no_panic _ _ _)
+  | .destrStruct sid args, rt, v, h => by
+      have hss : orCleanL args = true := by simpa [orClean] using h
+      unfold assign specAssign
+      cases v with
+      | inst sid' fields =>
+        simp only []
+        by_cases hs : sid = sid'
+        · simp only [hs, beq_self_eq_true, if_true]
+          exact tail_ref e args rt fields (fun arr hl' => assignItems_ref e args rt arr hss hl')
+        · simp [hs, Ref]
+      | _ => simp [Ref]
+theorem assignItems_ref (e : Env) : ∀ (ps : List Pat) (rt : Option Ty) (vs : List Val),
+    orCleanL ps = true → ps.length = vs.length →
+    Ref (assignItems e ps rt vs) (specAssignItems e ps rt vs)
+  | [], rt, [], _, _ => by rw [assignItems_nil, specAssignItems_nil]; simp [Ref]
+  | [], _, _ :: _, _, hl => by simp at hl
+  | _ :: _, _, [], _, hl => by simp at hl
+  | p :: ps, rt, v :: vs, h, hl => by
+      simp [orCleanL] at h
+      have hl' : ps.length = vs.length := by simpa using hl
+      have rest : ∀ e', Ref (assignItems e' ps rt vs) (specAssignItems e' ps rt vs) :=
+        fun e' => assignItems_ref e' ps rt vs h.2 hl'
+      cases p with
+      | splat inner =>
+        rw [assignItems_splat, specAssignItems_splat]
+        exact ref_step _ _ _ _ (assign_ref e inner rt v (by simpa [orClean] using h.1)) rest
+      | anno q ann =>
+        cases q with
+        | splat inner =>
+          rw [assignItems_annoSplat, specAssignItems_annoSplat]
+          apply ref_step _ _ _ _ _ rest
+          have hi : orClean inner = true := by simpa [orClean] using h.1
+          cases ann with
+          | none => exact assign_ref e inner _ v hi
+          | some t =>
+            simp only []
+            cases ht : toType t with
+            | ok ty => exact assign_ref e inner _ v hi
+            | throw => simp [Ref]
+            | panic => cases t <;> simp [toType] at ht
+        | _ =>
+          rw [assignItems_other _ _ _ _ _ _ (by simp [isSplatItem]), specAssignItems_other _ _ _ _ _ _ (by simp [isSplatItem])]
+          exact ref_step _ _ _ _ (assign_ref e _ rt v h.1) rest
+      | _ =>
+        rw [assignItems_other _ _ _ _ _ _ (by simp [isSplatItem]), specAssignItems_other _ _ _ _ _ _ (by simp [isSplatItem])]
+        exact ref_step _ _ _ _ (assign_ref e _ rt v h.1) rest
+end
+
+theorem arrange_no_panic (ps : List Pat) (items : List Val) : arrange ps items.length items ≠ .panic := by
+  rw [arrange_eq_spec]; cases specArrange ps items <;> simp [optToOut]
+
+theorem stepItems_no_panic (r : Env × Out Unit) (k : Env → Env × Out Unit)
+    (h : r.2 ≠ .panic) (hk : ∀ e', (k e').2 ≠ .panic) : (stepItems r k).2 ≠ .panic := by
+  obtain ⟨e', o⟩ := r
+  cases o with
+  | ok u => exact hk e'
+  | throw => simp [stepItems]
+  | panic => simp at h
+
+theorem tail_no_panic (e : Env) (ss : List Pat) (rt' : Option Ty) (items : List Val)
+    (ih : ∀ arr : List Val, (assignItems e ss rt' arr).2 ≠ .panic) :
+    (match arrange ss items.length items with
+      | .ok arranged => assignItems e ss rt' arranged
+      | .throw => (e, .throw)
+      | .panic => (e, .panic)).2 ≠ .panic := by
+  cases h : arrange ss items.length items with
+  | ok arr => exact ih arr
+  | throw => simp
+  | panic => exact absurd h (arrange_no_panic ss items)
+
+mutual
+/-- `assign` never panics: every unchecked machine operation in `assign_all` (the usize
+subtractions, the drain bounds) and in the destructuring builtins (`%` and `div_floor` by zero) is
+unreachable, for every pattern, declared type and value. -/
+theorem assign_no_panic (e : Env) : ∀ (p : Pat) (rt : Option Ty) (v : Val), (assign e p rt v).2 ≠ .panic
+  | .underscore, rt, v => by
+      unfold assign
+      cases rt with
+      | none => simp
+      | some T =>
+        simp only []
+        cases hty : isType T v with
+        | ok b => cases b <;> simp
+        | throw => simp
+        | panic => exact absurd hty (isType_no_panic _ _)
+  | .ident x ixs, rt, v => by
+      unfold assign
+      cases rt with
+      | some T =>
+        cases ixs with
+        | nil => exact insertDeclare_no_panic e x T v
+        | cons i is => simp
+      | none => exact assignRespectingType_no_panic e x ixs v
+  | .anno s ann, rt, v => by
+      unfold assign
+      cases ann with
+      | none => exact assign_no_panic e s _ v
+      | some t =>
+        simp only []
+        cases ht : toType t with
+        | ok ty => exact assign_no_panic e s _ v
+        | throw => simp
+        | panic => cases t <;> simp [toType] at ht
+  | .withDefault s _, rt, v => by
+      unfold assign; exact assign_no_panic e s rt v
+  | .seq ss d, rt, v => by
+      have fin : ∀ rt' : Option Ty, (match patLen v, seqItems v with
+            | some len, some items =>
+              (match arrange ss len items with
+               | .ok arranged => assignItems e ss rt' arranged
+               | .throw => (e, .throw)
+               | .panic => (e, .panic))
+            | _, _ => (e, .throw)).2 ≠ .panic := by
+        intro rt'
+        rcases seq_view_cases v with ⟨items, h1, h2⟩ | ⟨h1, h2⟩
+        · rw [h1, h2]; exact tail_no_panic e ss rt' items (fun arr => assignItems_no_panic e ss rt' arr)
+        · rw [h1, h2]; simp
+      unfold assign
+      cases d with
+      | false => simp only [Bool.false_eq_true, if_false]; exact fin rt
+      | true =>
+        cases rt with
+        | none => simp only [if_true]; exact fin none
+        | some T =>
+          cases hty : isType T v with
+          | ok b =>
+            cases b with
+            | true => simp only [hty, if_true]; exact fin _
+            | false => simp only [hty]; simp
+          | throw => simp only [hty]; simp
+          | panic => exact absurd hty (isType_no_panic _ _)
+  | .splat _, _, _ => by unfold assign; simp
+  | .or a b, rt, v => by
+      unfold assign
+      have ha := assign_no_panic e a rt v
+      rcases hr : assign e a rt v with ⟨e', o⟩
+      rw [hr] at ha
+      cases o with
+      | ok u => simp
+      | throw => exact assign_no_panic e' b rt v
+      | panic => simp at ha
+  | .and a b, rt, v => by
+      unfold assign
+      have ha := assign_no_panic e a rt v
+      rcases hr : assign e a rt v with ⟨e', o⟩
+      rw [hr] at ha
+      cases o with
+      | ok u => exact assign_no_panic e' b rt v
+      | throw => simp
+      | panic => simp at ha
+  | .lit l, _, v => by unfold assign; split <;> simp
+  | .destr f args, rt, v => by
+      unfold assign
+      cases hd : destructure f v (args.map knownOf) with
+      | ok res =>
+        simp only []
+        by_cases hl : res.length = args.length
+        · simp only [hl, beq_self_eq_true, if_true]
+          rw [← hl]
+          exact tail_no_panic e args rt res (fun arr => assignItems_no_panic e args rt arr)
+        · simp [hl]
+      | throw => simp
+      | panic => exact absurd hd (destructure_no_panic _ _ _)
+  | .destrStruct sid args, rt, v => by
+      unfold assign
+      cases v with
+      | inst sid' fields =>
+        simp only []
+        by_cases hs : sid = sid'
+        · simp only [hs, beq_self_eq_true, if_true]
+          exact tail_no_panic e args rt fields (fun arr => assignItems_no_panic e args rt arr)
+        · simp [hs]
+      | _ => simp
+theorem assignItems_no_panic (e : Env) : ∀ (ps : List Pat) (rt : Option Ty) (vs : List Val),
+    (assignItems e ps rt vs).2 ≠ .panic
+  | [], rt, vs => by rw [assignItems_nil]; simp
+  | _ :: _, _, [] => by rw [assignItems_cons_nil]; simp
+  | p :: ps, rt, v :: vs => by
+      have rest : ∀ e', (assignItems e' ps rt vs).2 ≠ .panic := fun e' => assignItems_no_panic e' ps rt vs
+      cases p with
+      | splat inner =>
+        rw [assignItems_splat]
+        exact stepItems_no_panic _ _ (assign_no_panic e inner rt v) rest
+      | anno q ann =>
+        cases q with
+        | splat inner =>
+          rw [assignItems_annoSplat]
+          apply stepItems_no_panic _ _ _ rest
+          cases ann with
+          | none => exact assign_no_panic e inner _ v
+          | some t =>
+            simp only []
+            cases ht : toType t with
+            | ok ty => exact assign_no_panic e inner _ v
+            | throw => simp
+            | panic => cases t <;> simp [toType] at ht
+        | _ =>
+          rw [assignItems_other _ _ _ _ _ _ (by simp [isSplatItem])]
+          exact stepItems_no_panic _ _ (assign_no_panic e _ rt v) rest
+      | _ =>
+        rw [assignItems_other _ _ _ _ _ _ (by simp [isSplatItem])]
+        exact stepItems_no_panic _ _ (assign_no_panic e _ rt v) rest
+end
+
+/-- **Impl = Spec for binding** (`assign_sound_complete`, executable form).  For every environment,
+declared-type context and value, and every pattern whose `or` nodes bind nothing in their first
+alternative: `assign` succeeds exactly when the transactional reference does, with the same
+resulting environment; otherwise it raises. -/
+theorem assign_eq_spec (e : Env) (p : Pat) (rt : Option Ty) (v : Val) (h : orClean p = true) :
+    (∀ e', specAssign e p rt v = some e' → assign e p rt v = (e', .ok ())) ∧
+    (specAssign e p rt v = none → (assign e p rt v).2 = .throw) := by
+  have hr := assign_ref e p rt v h
+  rcases hq : assign e p rt v with ⟨e1, o⟩
+  rw [hq] at hr
+  cases o with
+  | ok u =>
+    simp [Ref] at hr
+    constructor
+    · intro e' he; rw [hr] at he; simp at he; subst he; rfl
+    · intro hn; rw [hr] at hn; simp at hn
+  | throw =>
+    simp [Ref] at hr
+    constructor
+    · intro e' he; rw [hr] at he; simp at he
+    · intro _; rfl
+  | panic => simp [Ref] at hr
+
+def orCleanAll (ps : List Pat) : Prop := ∀ p ∈ ps, orClean p = true
+
+/-- `switch` on the code side = `specSwitch` (first arm whose pattern accepts) -/
+theorem switchArm_eq_spec (e : Env) (s : Val) : ∀ (arms : List Pat) (i : Nat), orCleanAll arms →
+    switchArm e s arms i = optToOut (specSwitch e s arms i) := by
+  intro arms
+  induction arms with
+  | nil => intro i _; rfl
+  | cons p arms ih =>
+    intro i h
+    have hp : orClean p = true := h p (by simp)
+    have hr := assign_ref ([] :: e) p (some .any) s hp
+    unfold switchArm specSwitch
+    rcases hq : assign ([] :: e) p (some .any) s with ⟨e1, o⟩
+    rw [hq] at hr
+    cases o with
+    | ok u => simp [Ref] at hr; simp [hr, optToOut]
+    | throw =>
+      simp [Ref] at hr
+      simp only [hr]
+      exact ih (i + 1) (fun q hq => h q (by simp [hq]))
+    | panic => simp [Ref] at hr
+
+/-- what `specSwitch` computes: the least index whose arm accepts -/
+theorem specSwitch_some (e : Env) (s : Val) : ∀ (arms : List Pat) (i k : Nat) (ee : Env),
+    specSwitch e s arms i = some (k, ee) ↔
+      ∃ j, k = i + j ∧ j < arms.length ∧
+        (∃ p, arms[j]? = some p ∧ specAssign ([] :: e) p (some .any) s = some ee) ∧
+        ∀ j' < j, ∀ q, arms[j']? = some q → specAssign ([] :: e) q (some .any) s = none := by
+  intro arms
+  induction arms with
+  | nil => intro i k ee; simp [specSwitch]
+  | cons p arms ih =>
+    intro i k ee
+    unfold specSwitch
+    cases hp : specAssign ([] :: e) p (some .any) s with
+    | some e1 =>
+      simp only []
+      constructor
+      · intro h
+        simp at h
+        obtain ⟨rfl, rfl⟩ := h
+        exact ⟨0, by simp, by simp, ⟨p, by simp, hp⟩, by intro j' hj'; omega⟩
+      · rintro ⟨j, hk, hj, ⟨q, hq, hqs⟩, hall⟩
+        cases j with
+        | zero => simp at hq; subst hq; rw [hp] at hqs; simp at hqs; subst hqs; simp [hk]
+        | succ j =>
+          have := hall 0 (by omega) p (by simp)
+          rw [hp] at this; simp at this
+    | none =>
+      simp only []
+      rw [ih (i + 1) k ee]
+      constructor
+      · rintro ⟨j, hk, hj, ⟨q, hq, hqs⟩, hall⟩
+        refine ⟨j + 1, by omega, by simp; omega, ⟨q, by simpa using hq, hqs⟩, ?_⟩
+        intro j' hj' q' hq'
+        cases j' with
+        | zero => simp at hq'; subst hq'; exact hp
+        | succ j' => exact hall j' (by omega) q' (by simpa using hq')
+      · rintro ⟨j, hk, hj, ⟨q, hq, hqs⟩, hall⟩
+        cases j with
+        | zero => simp at hq; subst hq; rw [hp] at hqs; simp at hqs
+        | succ j =>
+          refine ⟨j, by omega, by simp at hj; omega, ⟨q, by simpa using hq, hqs⟩, ?_⟩
+          intro j' hj' q' hq'
+          exact hall (j' + 1) (by omega) q' (by simpa using hq')
+
+theorem specSwitch_none (e : Env) (s : Val) : ∀ (arms : List Pat) (i : Nat),
+    specSwitch e s arms i = none ↔ ∀ p ∈ arms, specAssign ([] :: e) p (some .any) s = none := by
+  intro arms
+  induction arms with
+  | nil => intro i; simp [specSwitch]
+  | cons p arms ih =>
+    intro i
+    unfold specSwitch
+    cases hp : specAssign ([] :: e) p (some .any) s with
+    | some e1 => simp [hp]
+    | none => simp [hp, ih (i + 1)]
+
+/-- **`switch_first_match`**: `switch` runs arm `k` (with the bindings of that arm's pattern, in a
+fresh frame) iff arm `k` accepts the scrutinee and no earlier arm does; it raises iff no arm
+accepts; it never panics. -/
+theorem switch_first_match (e : Env) (s : Val) (arms : List Pat) (h : orCleanAll arms) :
+    (∀ k ee, switchArm e s arms 0 = .ok (k, ee) ↔
+      k < arms.length ∧
+      (∃ p, arms[k]? = some p ∧ specAssign ([] :: e) p (some .any) s = some ee) ∧
+      ∀ j < k, ∀ q, arms[j]? = some q → specAssign ([] :: e) q (some .any) s = none) ∧
+    (switchArm e s arms 0 = .throw ↔ ∀ p ∈ arms, specAssign ([] :: e) p (some .any) s = none) ∧
+    switchArm e s arms 0 ≠ .panic := by
+  rw [switchArm_eq_spec e s arms 0 h]
+  refine ⟨?_, ?_, ?_⟩
+  · intro k ee
+    cases hs : specSwitch e s arms 0 with
+    | none =>
+      simp only [optToOut]
+      constructor
+      · intro h'; simp at h'
+      · rintro ⟨hk, ⟨p, hp, hps⟩, _⟩
+        have := (specSwitch_none e s arms 0).mp hs p (List.mem_of_getElem? hp)
+        rw [this] at hps; simp at hps
+    | some r =>
+      obtain ⟨k', ee'⟩ := r
+      simp only [optToOut]
+      have := specSwitch_some e s arms 0 k' ee'
+      constructor
+      · intro h'
+        simp at h'
+        obtain ⟨rfl, rfl⟩ := h'
+        obtain ⟨j, hj1, hj2, hj3, hj4⟩ := this.mp hs
+        have : j = k' := by omega
+        subst this
+        exact ⟨hj2, hj3, hj4⟩
+      · rintro ⟨hk, hp, hall⟩
+        have h2 := (specSwitch_some e s arms 0 k ee).mpr ⟨k, by omega, hk, hp, hall⟩
+        rw [hs] at h2
+        simp at h2
+        simp [h2]
+  · cases hs : specSwitch e s arms 0 with
+    | none => simp [optToOut, ← specSwitch_none e s arms 0, hs]
+    | some r =>
+      simp only [optToOut]
+      constructor
+      · intro h'; simp at h'
+      · intro h'
+        have := (specSwitch_none e s arms 0).mpr h'
+        rw [hs] at this; simp at this
+  · cases specSwitch e s arms 0 <;> simp [optToOut]
+
+/-- the catch clause: the handler runs iff the pattern accepts the thrown value -/
+theorem catchClause_eq_spec (e : Env) (p : Pat) (thrown : Val) (h : orClean p = true) :
+    catchClause e p thrown = optToOut (specAssign ([] :: e) p (some .any) thrown) := by
+  have hr := assign_ref ([] :: e) p (some .any) thrown h
+  unfold catchClause
+  rcases hq : assign ([] :: e) p (some .any) thrown with ⟨e1, o⟩
+  rw [hq] at hr
+  cases o with
+  | ok u => simp [Ref] at hr; simp [hr, optToOut]
+  | throw => simp [Ref] at hr; simp [hr, optToOut]
+  | panic => simp [Ref] at hr
+
+/-- lambda parameters -/
+theorem bindParams_ref (e : Env) (params : List Pat) (args : List Val) (h : orCleanL params = true) :
+    Ref (bindParams e params args) (specBindParams e params args) := by
+  unfold bindParams specBindParams
+  rcases arrange_cases params args with ⟨arr, h1, h2, h3⟩ | ⟨h1, h2⟩
+  · rw [h1, h2]; exact assignItems_ref ([] :: e) params (some .any) arr h h3.symm
+  · rw [h1, h2]; simp [Ref]
+
+/-- `switch`, `catch` and parameter binding never panic, for arbitrary patterns -/
+theorem switchArm_no_panic (e : Env) (s : Val) : ∀ (arms : List Pat) (i : Nat), switchArm e s arms i ≠ .panic := by
+  intro arms
+  induction arms with
+  | nil => intro i; simp [switchArm]
+  | cons p arms ih =>
+    intro i
+    unfold switchArm
+    have := assign_no_panic ([] :: e) p (some .any) s
+    rcases hq : assign ([] :: e) p (some .any) s with ⟨e1, o⟩
+    rw [hq] at this
+    cases o with
+    | ok u => simp
+    | throw => exact ih (i + 1)
+    | panic => simp at this
+
+/-! ## §7 the recorded defect: `or` does not roll back -/
+
+/-- the full-strength statement: `assign` implements the transactional reference for *every* pattern -/
+def assign_sound_complete_statement : Prop :=
+  ∀ (e : Env) (p : Pat) (rt : Option Ty) (v : Val), Ref (assign e p rt v) (specAssign e p rt v)
+
+/-- `(x, 1) or (x, 2)` -/
+def orWitness : Pat :=
+  .or (.seq [.ident 0 [], .lit (.int 1)] false) (.seq [.ident 0 [], .lit (.int 2)] false)
+
+/-- the code refuses `[5, 2]` for `(x, 1) or (x, 2)` (the second alternative finds `x` already
+declared by the failed first one) although the second alternative accepts it -/
+theorem or_no_rollback_witness :
+    (assign [[]] orWitness (some .any) (.list [.int 5, .int 2])).2 = .throw ∧
+    (specAssign [[]] orWitness (some .any) (.list [.int 5, .int 2])).isSome = true := by
+  constructor <;> decide
+
+theorem assign_sound_complete_statement_refuted : ¬ assign_sound_complete_statement := by
+  intro h
+  have := h [[]] orWitness (some .any) (.list [.int 5, .int 2])
+  have w := or_no_rollback_witness
+  unfold Ref at this
+  rw [w.1] at this
+  simp only [] at this
+  rw [this] at w
+  simp at w
+
+/-- non-vacuity of `assign_eq_spec`: `(1 or 2), ...xs` against `[2, 7, 8]` binds `xs = [7, 8]` -/
+example :
+    orClean (.seq [.or (.lit (.int 1)) (.lit (.int 2)), .splat (.ident 0 [])] false) = true ∧
+    (assign [[]] (.seq [.or (.lit (.int 1)) (.lit (.int 2)), .splat (.ident 0 [])] false) (some .any)
+      (.list [.int 2, .int 7, .int 8])).2 = .ok () := by
+  constructor <;> decide
 
 end Noulith.C12
